@@ -17,6 +17,8 @@ BOUNDS = {"payloads": "every 78-byte payload valid per BIP32: depth 0..255, any 
                       "[1,n-1] or a model-valid compressed point; depth 0 => fingerprint 0 and child number 0",
           "versions": "all 12 constants exhaustively; every other 32-bit version (one query) for the refusal",
           "forms": "bytes, stream, string (through the Base58Check summary)"}
+BOUNDS_ADDED = 'two extended public keys P and -P (same x, other parity) parsed and re-serialised in one process; boundary vectors: unregistered versions next to registered ones'
+BOUNDS["histories, lifetimes, injected faults, boundary vectors"] = BOUNDS_ADDED
 STUBS = ["Base58Check -> summary (payload in, payload out); 111-character length by the integer lemma in the length case",
          "secp256k1 -> group model", "SHA-256/RIPEMD-160 -> uninterpreted"]
 ASSUMPTIONS = ["payloads with depth 0 but non-zero fingerprint/child number are not valid BIP32 serialisations and are excluded"]
